@@ -27,6 +27,7 @@ type lexInfo struct {
 	escapeInQuotes bool
 	quoted         bool
 	tightParens    bool
+	prefixNot      bool // "not" in front of a plain condition (accepted by the parser, documented for groups only)
 }
 
 func isWS(c byte) bool { return c == ' ' || c == '\t' || c == '\n' || c == '\r' }
@@ -144,11 +145,12 @@ var refBools = map[string]bool{"1": true, "t": true, "T": true, "true": true, "T
 	"0": false, "f": false, "F": false, "false": false, "False": false, "FALSE": false}
 
 type refParser struct {
-	toks     []rtok
-	pos      int
-	aliasOp  bool
-	ok       bool
-	maxDepth int
+	toks      []rtok
+	pos       int
+	aliasOp   bool
+	prefixNot bool
+	ok        bool
+	maxDepth  int
 }
 
 func (p *refParser) peek() *rtok {
@@ -237,6 +239,7 @@ func refParse(s string) (*QSpec, lexInfo, bool) {
 	if p.pos != len(p.toks) {
 		return nil, li, false
 	}
+	li.prefixNot = p.prefixNot
 	return q, li, true
 }
 
@@ -285,8 +288,13 @@ func (p *refParser) term(depth int) (*Node, bool) {
 		neg = true
 		p.pos++
 		t = p.peek()
-		if t == nil || t.paren != '(' {
-			return nil, false // "not" in front is documented for groups only
+		if t == nil || t.paren == ')' {
+			return nil, false
+		}
+		if t.paren != '(' {
+			// "not" in front is documented for groups only; the parser also takes it in front of a plain
+			// condition. Extension (flagged): it negates that one condition, like "not (cond)".
+			p.prefixNot = true
 		}
 	}
 	if t.paren == '(' {
@@ -315,6 +323,9 @@ func (p *refParser) term(depth int) (*Node, bool) {
 	p.pos++
 	o := p.peek()
 	negLeaf := false
+	if o.isKeyword("not") && neg {
+		return nil, false // prefix and infix "not" on one condition: left open
+	}
 	if o.isKeyword("not") {
 		negLeaf = true
 		p.pos++
@@ -386,7 +397,7 @@ func (p *refParser) term(depth int) (*Node, bool) {
 			return nil, false
 		}
 	}
-	if negLeaf {
+	if negLeaf || neg {
 		return not(l), true
 	}
 	return l, true
@@ -400,6 +411,7 @@ type ropt struct {
 	Paren      int  `json:"paren"`       // 0 "(a and b)", 1 "( a and b )", 2 no blanks next to any parenthesis
 	Sep        int  `json:"sep"`         // 0 one blank, 1 two blanks, 2 tab
 	RootParens bool `json:"root_parens"` // keep the parentheses around a root group
+	PrefixNot  bool `json:"prefix_not"`  // write a negated plain condition as "not key op value" instead of "key not op value"
 }
 
 func needsQuoting(t string) bool { return t == "" || strings.ContainsAny(t, "()\"\\\t\r\n ") }
@@ -432,6 +444,10 @@ func renderNode(n *Node, o ropt, out *[]string) bool {
 		c := n.C[0]
 		switch c.T {
 		case "leaf":
+			if o.PrefixNot {
+				*out = append(*out, "not")
+				return renderLeaf(c, false, o, out)
+			}
 			return renderLeaf(c, true, o, out)
 		case "not":
 			// not (<inner not>)
